@@ -132,7 +132,7 @@ def blocks_between_elevations_partition_the_interval(ctx, n):
 # below elevation 0) makes getBlocksBetweenElevations raise IndexError (allMeshPoints[-1] of an empty list) instead of
 # returning no blocks or failing with its documented ValueError: 2 blocks of 10 cm, getBlocksBetweenElevations(25, 30).
 # While the flag is set the window is assumed to touch the assembly.
-KNOWN_DEFECT_window_without_overlap_raises_index_error = True
+KNOWN_DEFECT_window_without_overlap_raises_index_error = False
 
 
 @harness("C11", bounds="as above, but the window may reach beyond the assembly: zLower<zUpper anywhere in [-50, H+50]",
@@ -349,7 +349,7 @@ def remesh_maps_parameters_by_kind(ctx, ns, nd, unset):
 # negative the destination gets 0.0, which is none of the source values.  Plain floats: two source blocks of 10 cm with
 # fluxPeak -3 and -2 mapped onto one block of 20 cm -> 0.0 instead of -2.
 # While the flag is set the obligations are required only when the largest substantially overlapped value is >= 0.
-KNOWN_DEFECT_peak_maximum_starts_at_zero = True
+KNOWN_DEFECT_peak_maximum_starts_at_zero = False
 _NEG = -1e7         # below every admissible value: neutral element of the maximum
 
 
@@ -677,7 +677,7 @@ KNOWN_DEFECT_decusp_ignores_assembly_ends = False  # recorded in known_findings.
 # the generated mesh keeps that point and the first cell is thinner than the minimum.  Plain floats: fuel assemblies
 # 0 / 0.5 / 25 / 125 / 175 cm, control 60..100, minimum 2 -> common mesh [0.5, 25, 60, 100, 125, 175].
 # While the flag is set the obligation on the first cell is required only when the foot is not thinner than the minimum.
-KNOWN_DEFECT_decusp_thin_first_cell = True
+KNOWN_DEFECT_decusp_thin_first_cell = False  # recorded in known_findings.jsonl (sibling of the entry above)
 FUEL_25_125 = (25.0, 125.0, 175.0)
 FUEL_SHORT = (40.0, 60.0, 100.0)
 
@@ -697,7 +697,7 @@ FUEL_30_120 = (30.0, 120.0, 175.0)
          instances={"quick": [dict(fuel=FUEL_25_125), dict(fuel=FUEL_25_125, coincide="bottomOnFuelTop"),
                               dict(fuel=FUEL_25_125, coincide="bottomOnFuelTop", cap=True)],
                     "thorough": [dict(fuel=FUEL_25_125, cap=True), dict(fuel=FUEL_25_125, coincide="bottomOnFuelTop", foot=True),
-                                 dict(fuel=FUEL_25_125, coincide="topOnFuelTop"),
+                                 dict(fuel=FUEL_25_125, foot=True), dict(fuel=FUEL_25_125, coincide="topOnFuelTop"),
                                  dict(fuel=FUEL_25_125, coincide="bottomOnFuelBottom"),
                                  dict(fuel=FUEL_SHORT), dict(fuel=FUEL_25_125, fuel2=FUEL_30_120),
                                  dict(fuel=FUEL_25_125, fuel2=FUEL_30_120, coincide="bottomOnFuelTop")]})
@@ -709,8 +709,10 @@ def decusped_common_mesh_keeps_material_boundaries(ctx, fuel, fuel2=None, coinci
     r, core, assems = _build.mk_core([(0, 0), (1, 0)], nblocks=3 + bool(cap) + bool(foot))
     ctrl = _build.mk_assembly(6 if cap or foot else 4, name="control")
     core.add(ctrl, core.spatialGrid[2, 0, 0])
-    cb = ctx.real("ctrlBottom", 1.0, H - 2.0)
-    ct = ctx.real("ctrlTop", 2.0, H - 1.0)
+    # (a control boundary that `coincide` puts on a fuel boundary is no input: the recorded findings ask whether
+    # 'ctrlBottom' / 'ctrlTop' is among the inputs)
+    cb = ctx.real("ctrlBottom", 1.0, H - 2.0) if coincide not in ("bottomOnFuelTop", "bottomOnFuelBottom") else None
+    ct = ctx.real("ctrlTop", 2.0, H - 1.0) if coincide != "topOnFuelTop" else None
     m = ctx.real("minSize", 0.1, 30.0)
     extra = []                          # symbolic points of the fuel assemblies' own mesh (besides the fuel boundaries)
     if cap:
@@ -819,7 +821,7 @@ KNOWN_DEFECT_resample_sum_inner_bin = False  # recorded in known_findings.jsonl
 # bins read the already trimmed value:  resampleStepwise([0,1,2,3,4], np.array([3.,2,5,3]), [0,2,3.5,4], avg=False) ->
 # [5.0, 6.5, 0.75] (a list of values gives [5.0, 6.5, 1.5]) and the array is left as [3, 2, 5, 0.75].
 # While the flag is set the obligations on numpy values are stated for average mode only.
-KNOWN_DEFECT_resample_sum_modifies_numpy_values = True
+KNOWN_DEFECT_resample_sum_modifies_numpy_values = False
 
 # Candidate genuine defect (reported, not repaired): an output bin that starts below the first input point and reaches into
 # the input range is not given its partial overlap (np.digitize gives bin 0, the slice yin[-1:end] is empty or the LAST
@@ -829,7 +831,11 @@ KNOWN_DEFECT_resample_sum_modifies_numpy_values = True
 # A bin that starts below and ends exactly AT the first input point fails the same way (([0,10],[5.],[-5,0,5]) ->
 # ZeroDivisionError).
 # While the flag is set, span='over' assumes that no output bin starts below the first input point and reaches it.
-KNOWN_DEFECT_resample_left_overhang = True
+KNOWN_DEFECT_resample_left_overhang = False
+
+
+_INNER = " (bin strictly inside one input bin)"
+_SOME_INNER = " (some output bin strictly inside one input bin)"
 
 
 def _seg_overlap(a0, a1, b0, b1):
@@ -894,20 +900,23 @@ def resample_stepwise_conserves_integral(ctx, n, m, span):
         else:
             ctx.check_close("average mode, bin %d: value x width = integral of the step function over the bin" % j,
                             avg[j] * do[j], want, scale=ysc * W)
-        inner = OR(*[AND(xin[i] < xout[j], xout[j + 1] < xin[i + 1]) for i in range(n)])
+        # (whether the bin lies strictly inside one input bin is decided by the comparisons of the code itself: no new
+        # paths; the configuration is carried by the obligation name, see the recorded finding)
+        inner = bool(OR(*[AND(xin[i] < xout[j], xout[j + 1] < xin[i + 1]) for i in range(n)]))
         inners.append(inner)
         wantSum = sum(yin[i] * ov[i] / dx[i] for i in range(n))
         if KNOWN_DEFECT_resample_sum_inner_bin:
             wantSum = ITE(inner, tot[j], wantSum)
-        ctx.check_close("sum mode, bin %d: value = sum of source values x covered fraction of the source bin" % j,
-                        tot[j], wantSum, scale=ysc)
+        ctx.check_close("sum mode, bin %d%s: value = sum of source values x covered fraction of the source bin"
+                        % (j, _INNER if inner else ""), tot[j], wantSum, scale=ysc)
     if span == "same":
         ctx.check_close("average mode conserves the integral sum(y dx)", sum(a * d for a, d in zip(avg, do)),
                         sum(y * d for y, d in zip(yin, dx)), scale=ysc * W)
         wantTot = sum(yin)
         if KNOWN_DEFECT_resample_sum_inner_bin:
             wantTot = ITE(OR(*inners), sum(tot), wantTot)
-        ctx.check_close("sum mode conserves sum(y)", sum(tot), wantTot, scale=ysc)
+        ctx.check_close("sum mode conserves sum(y)%s" % (_SOME_INNER if any(inners) else ""),
+                        sum(tot), wantTot, scale=ysc)
     c = ctx.real("c", -1000.0, 1000.0)
     flat = mathmod.resampleStepwise(list(xin), [c] * n, list(xout), avg=True)
     for j in range(m):
